@@ -155,13 +155,13 @@ class XMLParser(object):
                         data = self.source.read(bufsize)
                         if not data: # end of data
                             if hasattr(self, 'expat'):
-                                self.expat.Parse('', True)
+                                self._parse('', True)
                                 del self.expat # get rid of circular references
                             done = True
                         else:
                             if isinstance(data, six.text_type):
                                 data = data.encode('utf-8')
-                            self.expat.Parse(data, False)
+                            self._parse(data, False)
                     for event in self._queue:
                         yield event
                     self._queue = []
@@ -174,6 +174,21 @@ class XMLParser(object):
 
     def __iter__(self):
         return iter(self.parse())
+
+    def _parse(self, data, final):
+        try:
+            self.expat.Parse(data, final)
+        except (LookupError, ValueError) as e:
+            # For an encoding that Expat does not know itself pyexpat asks
+            # Python's codecs, and lets their exception through when the name
+            # in the XML declaration is unknown or no single-byte encoding
+            if expat.ErrorString(self.expat.ErrorCode) != \
+                    expat.errors.XML_ERROR_UNKNOWN_ENCODING:
+                raise
+            lineno = self.expat.ErrorLineNumber
+            offset = self.expat.ErrorColumnNumber
+            raise ParseError('%s: line %d, column %d' % (e, lineno, offset),
+                             self.filename, lineno, offset)
 
     def _build_foreign(self, context, base, sysid, pubid):
         parser = self.expat.ExternalEntityParserCreate(context)
